@@ -142,6 +142,8 @@ impl MinidumpWriter {
     /// Generates a minidump and writes to the destination provided. Returns the in-memory
     /// version of the minidump as well.
     pub fn dump(&mut self, destination: &mut (impl Write + Seek)) -> Result<Vec<u8>> {
+        #[cfg(feature = "verif-hooks")]
+        crate::linux::verif_hooks::sync("dump_start", 0);
         let auxv = self
             .direct_auxv_dump_info
             .clone()
@@ -428,7 +430,11 @@ impl MinidumpWriter {
         // ========================================================================================
 
         // Collect any last-minute soft errors when trying to restart threads
+        #[cfg(feature = "verif-hooks")]
+        crate::linux::verif_hooks::sync("before_resume", 0);
         dumper.resume_threads(soft_errors.subwriter(WriterError::ResumeThreadsErrors));
+        #[cfg(feature = "verif-hooks")]
+        crate::linux::verif_hooks::sync("after_resume", 0);
 
         // If this fails, there's really nothing we can do about that (other than ignore it).
         let dirent = write_soft_errors(buffer, soft_errors)
@@ -454,6 +460,23 @@ impl MinidumpWriter {
         let section = MemoryArrayWriter::write_bytes(buffer, &content);
         Ok(section.location())
     }
+}
+
+#[cfg(feature = "verif-hooks")]
+impl MinidumpWriter {
+    /// Verification hook for the private `crash_thread_references_principal_mapping`.
+    pub fn verif_crash_thread_references_principal_mapping(&self, dumper: &PtraceDumper) -> bool {
+        self.crash_thread_references_principal_mapping(dumper)
+    }
+}
+
+/// Verification hook for the private `write_soft_errors`.
+#[cfg(feature = "verif-hooks")]
+pub fn verif_write_soft_errors(
+    buffer: &mut DumpBuf,
+    soft_errors: ErrorList<WriterError>,
+) -> Result<MDLocationDescriptor> {
+    write_soft_errors(buffer, soft_errors)
 }
 
 fn write_soft_errors(
